@@ -26,100 +26,163 @@ var linNames = [...]string{"Read", "Write", "Delete", "ExpireAll", "DeleteAll"}
 type linState struct {
 	present bool
 	val     int
-	dated   bool // expiry set (by ExpireAll); never-expiring otherwise
+	e       int // expiry code: 0 never expires, 1 expired 10ns ago, 2 expires "now" (set by ExpireAll; still a hit while the clock is frozen)
 }
 
 type linObs struct {
-	kind int // 0 not found, 1 hit, 3 written, 4 deleted, 5 batch done
+	kind int // 0 not found, 1 hit, 2 expired (stale value and expiry attached), 3 written, 4 deleted, 5 batch done, 9 other error
 	val  int
+	e    int
 }
 
-// reference semantics of one operation (clock frozen: an entry expired "now" still reads as a hit)
+// reference semantics of one operation (clock frozen)
 func linApply(op, wval int, st linState) (linObs, linState) {
 	switch op {
 	case linRead:
-		if st.present {
-			return linObs{1, st.val}, st
+		if !st.present {
+			return linObs{0, 0, 0}, st
 		}
-		return linObs{0, 0}, st
+		if st.e == 1 {
+			return linObs{2, st.val, 1}, st
+		}
+		if st.e == 2 {
+			// expiry equals the frozen clock reading: a hit now, "expired at now" one tick later - both are right
+			return linObs{12, st.val, 2}, st
+		}
+		return linObs{1, st.val, 0}, st
 	case linWrite:
-		return linObs{3, 0}, linState{true, wval, false}
+		return linObs{3, 0, 0}, linState{true, wval, 0}
 	case linDelete:
 		if st.present {
-			return linObs{4, 0}, linState{}
+			return linObs{4, 0, 0}, linState{}
 		}
-		return linObs{0, 0}, st
+		return linObs{0, 0, 0}, st
 	case linExpireAll:
 		if st.present {
-			st.dated = true
+			st.e = 2
 		}
-		return linObs{5, 0}, st
+		return linObs{5, 0, 0}, st
 	default:
-		return linObs{5, 0}, linState{}
+		return linObs{5, 0, 0}, linState{}
 	}
 }
 
-func linRun(b *verifBackend, op, wval int) linObs {
+func linECode(e, now int64) int {
+	switch e {
+	case 0:
+		return 0
+	case now - 10:
+		return 1
+	case now:
+		return 2
+	}
+	return 7
+}
+
+func linRun(b *verifBackend, op, wval int, now int64) linObs {
 	ctx := context.Background()
 	key := []byte("a")
 	switch op {
 	case linRead:
 		v, err := b.read(ctx, key)
 		if err == nil {
-			return linObs{1, v.(int)}
+			return linObs{1, v.(int), 0}
 		}
 		if errors.Is(err, ErrNotFound) {
-			return linObs{0, 0}
+			return linObs{0, 0, 0}
 		}
-		return linObs{2, 0}
+		// the stale value and its expiry are read from the error afterwards, as Failover does
+		if b.generic {
+			var ew ErrWithExpiredItemOf[int]
+			if errors.As(err, &ew) {
+				sv, at := ew.Value(), ew.ExpiredAt()
+				if at.IsZero() {
+					return linObs{2, sv, 0}
+				}
+				return linObs{2, sv, linECode(at.UnixNano(), now)}
+			}
+			return linObs{9, 0, 0}
+		}
+		var ew ErrWithExpiredItem
+		if errors.As(err, &ew) {
+			sv, at := ew.Value(), ew.ExpiredAt()
+			if at.IsZero() {
+				return linObs{2, sv.(int), 0}
+			}
+			return linObs{2, sv.(int), linECode(at.UnixNano(), now)}
+		}
+		return linObs{9, 0, 0}
 	case linWrite:
 		_ = b.write(ctx, key, wval)
-		return linObs{3, 0}
+		return linObs{3, 0, 0}
 	case linDelete:
 		if err := b.del.Delete(ctx, key); err != nil {
-			return linObs{0, 0}
+			return linObs{0, 0, 0}
 		}
-		return linObs{4, 0}
+		return linObs{4, 0, 0}
 	case linExpireAll:
 		b.expAll(ctx)
-		return linObs{5, 0}
+		return linObs{5, 0, 0}
 	default:
 		b.delAll(ctx)
-		return linObs{5, 0}
+		return linObs{5, 0, 0}
 	}
 }
 
-func linEq(o linObs, kind, val int) bool { return verifAnd(o.kind == kind, o.val == val) }
+func linEq(o linObs, x linObs) bool {
+	if x.kind == 12 {
+		return verifAnd(o.val == x.val, verifOr(verifAnd(o.kind == 1, o.e == 0), verifAnd(o.kind == 2, o.e == 2)))
+	}
+	return verifAnd(o.kind == x.kind, verifAnd(o.val == x.val, o.e == x.e))
+}
+
+func linConfig(lfu bool) Config {
+	cfg := Config{TimeToLive: UnlimitedTTL, ExpirationJitter: -1}
+	if lfu {
+		cfg.EvictionStrategy = EvictLeastFrequentlyUsed
+	}
+	return cfg
+}
 
 // two threads, one operation each
-func verifL_Lin2(kind int) {
+func verifL_Lin2(kind int, stale bool) {
 	opA := verifChoice("opA", linOps)
 	opB := verifChoice("opB", linOps)
 	present := verifChoice("present", 2) == 1
-	b := verifNewBackend(kind, Config{TimeToLive: UnlimitedTTL, ExpirationJitter: -1})
+	lfu := false
+	if stale {
+		// the pre-stored entry has already expired and the cache keeps usage counters (LFU)
+		lfu = verifChoice("lfu", 2) == 1
+	}
+	b := verifNewBackend(kind, linConfig(lfu))
 	now := verifInt64("now")
 	verifAssume(now >= verifT0 && now <= verifT1)
 	verifClockFn = func() int64 { return now }
 	init := linState{}
 	if present {
-		b.put([]byte("a"), 1, 0, 0)
-		init = linState{true, 1, false}
+		if stale {
+			b.put([]byte("a"), 1, now-10, 0)
+			init = linState{true, 1, 1}
+		} else {
+			b.put([]byte("a"), 1, 0, 0)
+			init = linState{true, 1, 0}
+		}
 	}
 	var obsA, obsB linObs
 	verifThread(linNames[opA], func() {
-		o := linRun(b, opA, 10)
+		o := linRun(b, opA, 10, now)
 		verifAtomic(func() { obsA = o })
 	})
 	verifThread(linNames[opB], func() {
-		o := linRun(b, opB, 20)
+		o := linRun(b, opB, 20, now)
 		verifAtomic(func() { obsB = o })
 	})
 	verifFinally(func() {
 		verifReach("both operations completed")
 		en, ok := b.get([]byte("a"))
-		fval, fdated := 0, false
+		fval, fe := 0, 0
 		if ok {
-			fval, fdated = en.val.(int), en.e != 0
+			fval, fe = en.val.(int), linECode(en.e, now)
 		}
 		match := func(first, second int, wf, ws int, swap bool) bool {
 			o1, s1 := linApply(first, wf, init)
@@ -128,12 +191,12 @@ func verifL_Lin2(kind int) {
 			if swap {
 				a, bb = o2, o1
 			}
-			sv := 0
+			sv, se := 0, 0
 			if s2.present {
-				sv = s2.val
+				sv, se = s2.val, s2.e
 			}
-			return verifAnd(verifAnd(linEq(obsA, a.kind, a.val), linEq(obsB, bb.kind, bb.val)),
-				verifAnd(ok == s2.present, verifAnd(fval == sv, fdated == (s2.present && s2.dated))))
+			return verifAnd(verifAnd(linEq(obsA, a), linEq(obsB, bb)),
+				verifAnd(ok == s2.present, verifAnd(fval == sv, fe == se)))
 		}
 		verifAssert("results and final entry equal those of some sequential order of the two operations",
 			verifOr(match(opA, opB, 10, 20, false), match(opB, opA, 20, 10, true)))
@@ -141,9 +204,12 @@ func verifL_Lin2(kind int) {
 	verifRunThreads()
 }
 
-func verifL_Lin2_ShardedMap()   { verifL_Lin2(0) }
-func verifL_Lin2_SyncMap()      { verifL_Lin2(1) }
-func verifL_Lin2_ShardedMapOf() { verifL_Lin2(2) }
+func verifL_Lin2_ShardedMap()         { verifL_Lin2(0, false) }
+func verifL_Lin2_SyncMap()            { verifL_Lin2(1, false) }
+func verifL_Lin2_ShardedMapOf()       { verifL_Lin2(2, false) }
+func verifL_Lin2_ShardedMap_stale()   { verifL_Lin2(0, true) }
+func verifL_Lin2_SyncMap_stale()      { verifL_Lin2(1, true) }
+func verifL_Lin2_ShardedMapOf_stale() { verifL_Lin2(2, true) }
 
 // three operations: thread A performs two in program order, thread B one
 func verifL_Lin3(kind int) {
@@ -155,23 +221,23 @@ func verifL_Lin3(kind int) {
 	verifAssume(now >= verifT0 && now <= verifT1)
 	verifClockFn = func() int64 { return now }
 	b.put([]byte("a"), 1, 0, 0)
-	init := linState{true, 1, false}
+	init := linState{true, 1, 0}
 	var obsA1, obsA2, obsB linObs
 	verifThread("A", func() {
-		o1 := linRun(b, opA1, 10)
-		o2 := linRun(b, opA2, 11)
+		o1 := linRun(b, opA1, 10, now)
+		o2 := linRun(b, opA2, 11, now)
 		verifAtomic(func() { obsA1, obsA2 = o1, o2 })
 	})
 	verifThread("B", func() {
-		o := linRun(b, opB, 20)
+		o := linRun(b, opB, 20, now)
 		verifAtomic(func() { obsB = o })
 	})
 	verifFinally(func() {
 		verifReach("all operations completed")
 		en, ok := b.get([]byte("a"))
-		fval, fdated := 0, false
+		fval, fe := 0, 0
 		if ok {
-			fval, fdated = en.val.(int), en.e != 0
+			fval, fe = en.val.(int), linECode(en.e, now)
 		}
 		// pos: position of B's operation in the order (0: first, 1: between, 2: last)
 		match := func(pos int) bool {
@@ -188,12 +254,12 @@ func verifL_Lin3(kind int) {
 			if pos == 2 {
 				eB, st = linApply(opB, 20, st)
 			}
-			sv := 0
+			sv, se := 0, 0
 			if st.present {
-				sv = st.val
+				sv, se = st.val, st.e
 			}
-			return verifAnd(verifAnd(linEq(obsA1, eA1.kind, eA1.val), verifAnd(linEq(obsA2, eA2.kind, eA2.val), linEq(obsB, eB.kind, eB.val))),
-				verifAnd(ok == st.present, verifAnd(fval == sv, fdated == (st.present && st.dated))))
+			return verifAnd(verifAnd(linEq(obsA1, eA1), verifAnd(linEq(obsA2, eA2), linEq(obsB, eB))),
+				verifAnd(ok == st.present, verifAnd(fval == sv, fe == se)))
 		}
 		verifAssert("results and final entry equal those of some sequential order respecting program order",
 			verifOr(match(0), verifOr(match(1), match(2))))
